@@ -235,6 +235,14 @@ def set_drops(clauses: set, inserts: set):
     _TLS.clauses, _TLS.inserts = clauses, inserts
 
 
+def set_exclude_groups(groups: set):
+    _TLS.xgroups = set(groups)
+
+
+def _xgroups() -> set:
+    return getattr(_TLS, 'xgroups', set())
+
+
 def _drop_clauses() -> set:
     return getattr(_TLS, 'clauses', set())
 
@@ -245,6 +253,9 @@ def _drop_inserts() -> set:
 
 def _render_block(blk: ClauseBlock, indent: str, fn_label: str, mode: str = 'body') -> List[Seg]:
     segs = []
+    if mode != 'stub' and _xgroups() and any(c.group in _xgroups() for c in blk.clauses):
+        # a group of clauses this unit leaves to another unit (the stub at call sites keeps them)
+        blk = ClauseBlock([c for c in blk.clauses if c.group not in _xgroups()])
     if mode != 'stub' and any(c.assumed for c in blk.clauses):
         # assumed clauses exist only at the call sites (contract-only stubs); at the definition they are not claimed
         blk = ClauseBlock([c for c in blk.clauses if not c.assumed])
@@ -391,7 +402,7 @@ def extract_fn(unit: str, file: str, item: str, mode: str, contracts, canary: bo
     if c and c.sig.clauses:
         sig_segs.append(Seg('\n', {'kind': 'glue'}))
         sig_segs += _render_block(c.sig, '    ', fn_label, mode)
-        info.clauses += [cl_ for cl_ in c.sig.clauses if mode == 'stub' or not cl_.assumed]
+        info.clauses += [cl_ for cl_ in c.sig.clauses if mode == 'stub' or (not cl_.assumed and cl_.group not in _xgroups())]
         info.assumed_clauses = [cl_.label for cl_ in c.sig.clauses if cl_.assumed]
 
     if mode == 'stub':
@@ -563,7 +574,7 @@ def extract_fn(unit: str, file: str, item: str, mode: str, contracts, canary: bo
             lp = loops[k]
             inv = _join(_render_block(ls.block, '            ', fn_label))
             inv_segs = _render_block(ls.block, '            ', fn_label)
-            info.clauses += ls.block.clauses
+            info.clauses += [cl_ for cl_ in ls.block.clauses if cl_.group not in _xgroups()]
             open_t = toks[lp.open_tok]
             close_t = toks[lp.close_tok]
             if ls.desugar:
@@ -694,7 +705,7 @@ def extract_fn(unit: str, file: str, item: str, mode: str, contracts, canary: bo
                         return pnames[i_]
                     c0.expr = re.sub(r'\$(\d)', _sub, c0.expr)
             spec_segs = [Seg(' -> %s\n' % cs.ret if cs.ret else '\n', rw('A4'))] + _render_block(blk_c, '                ', fn_label)
-            info.clauses += cs.block.clauses
+            info.clauses += [cl_ for cl_ in cs.block.clauses if cl_.group not in _xgroups()]
             ins_at = toks[cl.params_end_tok].end
             prf = (' proof { %s } ' % cs.proof) if cs.proof and (fn_label, '%s:%d' % (c.vc_file, cs.vc_line)) not in _drop_inserts() else ''
             if cl.is_block:
@@ -716,6 +727,8 @@ def extract_fn(unit: str, file: str, item: str, mode: str, contracts, canary: bo
         for ins in c.inserts:
           with _Txn():
             org = {'kind': 'insert', 'fn': fn_label, 'vc': '%s:%d' % (ins.vc_file, ins.vc_line), 'tags': c.serves}
+            if ins.group and ins.group in _xgroups():
+                continue
             if (fn_label, org['vc']) in _drop_inserts():
                 raise LostAnchor('%s: proof block %s left out (does not compile against the changed function)' % (fn_label, org['vc']))
             n_as = len(re.findall(r'\bassert\s*\(', ins.text)) + len(re.findall(r'\bassert\s+forall\b', ins.text))
@@ -834,10 +847,15 @@ def assemble(unit_path: str, contracts=None, canary: bool = False, extras: Optio
 
     missing_stubs: List[str] = []
     bodies = set()
+    xg = set()
     for line in open(unit_path):
         mb = re.match(r'^\s*//@bodies\s+(.*)$', line)
         if mb:
             bodies.update(mb.group(1).split())
+        mg = re.match(r'^\s*//@exclude-groups\s+(.*)$', line)
+        if mg:
+            xg.update(mg.group(1).split())
+    set_exclude_groups(xg)
     used_bodies = set()
 
     def process(path: str, text: str, depth: int = 0):
@@ -921,7 +939,7 @@ def assemble(unit_path: str, contracts=None, canary: bool = False, extras: Optio
                         emit(xs, xinfo, xi)
                     else:
                         pending_free.append((xf, xi))
-            elif d in ('unit', 'note', 'serves', 'bodies', 'rlimit'):
+            elif d in ('unit', 'note', 'serves', 'bodies', 'rlimit', 'exclude'):
                 pass
             else:
                 raise ContractError('%s:%d: unknown directive //@%s' % (path, ln, d))
